@@ -25,7 +25,12 @@ Record cenv := mkCEnv {
   ce_addr : N -> N;                            (* address id -> byte length of the address *)
   ce_extra : N -> OutputSize.datum * option OutputSize.sref;   (* datum / script-ref id -> their shapes *)
   ce_a : N; ce_b : N;                          (* LinearFee *)
-  ce_vkeys : N                                 (* mock vkey witnesses of fake_full_tx *)
+  ce_vkeys : N;                                (* mock vkey witnesses of fake_full_tx *)
+  (* what else the builder carries while the fee is estimated: collateral inputs / return / total, auxiliary data *)
+  ce_col_inputs : list N;
+  ce_col_return : option OutputSize.output;
+  ce_col_total : option N;
+  ce_aux : option N
 }.
 
 (* the size-only view of C05's values and outputs *)
@@ -44,7 +49,8 @@ Definition value_too_big_c (e : cenv) (v : value) : bool :=
 
 (* the transaction build() measures, for builder states that only carry inputs, outputs and a fee *)
 Definition tx_shape_of (e : cenv) (s : state) (fee : N) : TxSize.tx_shape :=
-  TxSize.mkTx (map fst (s_inputs s)) (map (shape_output e) (s_outputs s)) fee (ce_vkeys e) [].
+  TxSize.mkTx (map fst (s_inputs s)) (map (shape_output e) (s_outputs s)) fee (ce_vkeys e) []
+            (ce_col_inputs e) (ce_col_return e) (ce_col_total e) (ce_aux e).
 Definition tx_too_big_c (e : cenv) (s : state) : bool :=
   match get_fee_if_set s with
   | Some f => MinAda.c_max_tx_size (ce_cfg e) <? TxSize.full_tx_size (tx_shape_of e s f)
@@ -526,7 +532,7 @@ Qed.
    overflows at once (the output is closed empty), is put into the fresh output untested, and when the second one
    overflows too that output -- 69 bytes at any coin -- is returned *)
 Definition w_env : cenv :=
-  mkCEnv (MinAda.mkCfg 4310 40 16384) (fun _ => 57) (fun _ => (OutputSize.DNone, None)) 44 155381 1.
+  mkCEnv (MinAda.mkCfg 4310 40 16384) (fun _ => 57) (fun _ => (OutputSize.DNone, None)) 44 155381 1 [] None None None.
 Definition w_change : value :=
   mkValue 5000000 (Some [(repeat 7 28, [(repeat 1 32, 1); (repeat 2 32, 1)])]).
 Theorem pack_untested_witness :
